@@ -288,7 +288,66 @@ def _fclass(spec, k, v):
     return 'formula'
 
 
+HEX_VALUES = ['_x0001_', '_x0007_', '_x001F_', '_x007F_']
+HEX_LOOKALIKES = ['_x0001', 'x0001_', '_xZZZZ_', '_x1_', 'a_x0001_']
+
+
+def hexvalue_cases():
+    """Fixed shapes (added after seed c09-b-r5): control-character constants in the documented dictionary form
+    {'type': 'HexValue', 'value': '_xHHHH_'} (what the workbook reader delivers for such shared strings; openpyxl cannot write
+    them, so the file path is out of reach), next to texts that only look similar, with formulas that tell them apart."""
+    S = "'[b.xlsx]S'!"
+    for hv in HEX_VALUES:
+        for la in HEX_LOOKALIKES:
+            d = {S + 'A1': {'type': 'HexValue', 'value': hv}, S + 'A2': la, S + 'A3': 7.0}
+            for r in ('1', '2'):
+                d[S + 'B' + r] = '=CODE(A%s)' % r
+                d[S + 'C' + r] = '=A%s=CHAR(%d)' % (r, int(hv[2:6], 16))
+                d[S + 'D' + r] = '=LEN(A%s)&"|"&A%s' % (r, r)
+                d[S + 'E' + r] = '=IF(ISTEXT(A%s),A3+1,0)' % r
+            yield {'k': 'rawdict', 'd': d, 'tag': 'hexvalue'}
+
+
+def check_rawdict(case):
+    """Round trip of a model given as a dictionary: same values after to_dict -> JSON -> from_dict, constants of the same
+    type, and the export is a fixed point."""
+    fails = []
+    m = sut.ExcelModel().from_dict(case['d'])
+    sol0 = m.calculate()
+    flat0, _ = G.flatten(sol0)
+    d1 = m.to_dict()
+    try:
+        d1j = json.loads(json.dumps(d1))
+    except (TypeError, ValueError) as ex:
+        return R([('json|not-serialisable|%s' % case['tag'], repr(ex))], nt=True)
+    m2 = sut.ExcelModel().from_dict(d1j)
+    sol2 = m2.calculate()
+    flat2, _ = G.flatten(sol2)
+    for k in sorted(set(flat0) | set(flat2)):
+        a, b = flat0.get(k, sut.BLANK), flat2.get(k, sut.BLANK)
+        if not X.same(a, b, 0) and not (isinstance(a, sut.Blank) and isinstance(b, sut.Blank)):
+            fails.append(('value|%s' % case['tag'], '%s: before %r, after import %r' % (k, a, b)))
+
+    def kinds(sol):
+        out = {}
+        for k, v in sol.items():
+            if isinstance(k, str) and hasattr(v, 'value'):
+                out[k] = [type(x).__name__ for x in sut.np.ravel(v.value)]
+        return out
+    k0, k2 = kinds(sol0), kinds(sol2)
+    for k in sorted(k0):
+        if k in k2 and k0[k] != k2[k] and any('HexValue' in (a, b) for a, b in zip(k0[k], k2[k])):
+            fails.append(('type|%s' % case['tag'], '%s: element types %r before, %r after import' % (k, k0[k], k2[k])))
+    d2 = m2.to_dict()
+    if _norm(d2) != _norm(d1):
+        diff = [k for k in sorted(set(d1) | set(d2), key=str) if _n1(d1.get(k, '<absent>')) != _n1(d2.get(k, '<absent>'))]
+        fails.append(('fixpoint|%s' % case['tag'], 'first export %r, second export %r' % ([d1.get(k, '<absent>') for k in diff[:3]], [d2.get(k, '<absent>') for k in diff[:3]])))
+    return R(_uniq(fails), nt=True, n=3, labels=['rawdict:' + case['tag']])
+
+
 def check_case(case):
+    if case['k'] == 'rawdict':
+        return check_rawdict(case)
     if case['k'] == 'spec':
         spec = case['spec']
         apos = any(sheet_class_of(spec, b, s) == 'apostrophe' for b, bk in enumerate(spec['books']) for s in range(len(bk['sheets'])))
@@ -370,4 +429,5 @@ def parts(tier, seed):
         ('hyp', 'plain', 480 if q else 5000, 10),
         ('hyp', 'dictnums', 480 if q else 5000, 10),
         ('enum', 'placeholder-shapes', list(placeholder_shapes()), 4, False),
+        ('enum', 'hexvalue-constants', list(hexvalue_cases()), 4, False),
     ]
